@@ -164,3 +164,5 @@ def run(chk):
     C15b.run(chk, mod, dem)
     from . import C15c
     C15c.run(chk)
+    from . import C15d
+    C15d.run(chk)
